@@ -102,7 +102,8 @@ class ChromosomeSync(Harness):
 
     def skeletons(self, tier, seed):
         ms = (0, 1, 2, 3) if tier == "quick" else (0, 1, 2, 3, 4)
-        return [dict(api=api, m=m) for api in ("iter_chromosomes", "synched_stream", "left_join") for m in ms]
+        return [dict(api=api, m=m) for api in ("iter_chromosomes", "synched_stream", "left_join") for m in ms] + \
+               [dict(api="iter_chromosomes", m=m, derived_first=True) for m in (1, 2)]
 
     def inputs(self, skel, V):
         hi = len(NAMES) - 1 if skel["api"] != "left_join" else UNK
@@ -119,6 +120,8 @@ class ChromosomeSync(Harness):
         if skel["api"] == "iter_chromosomes":
             import bionumpy.genomic_data.genome_context as gcm
             gc = gcm.GenomeContext.from_dict({"chr1": 10, "chr2": 10, "chr10": 10, "chr1_alt": 5})
+            if skel.get("derived_first"):
+                gc.with_ignored_added(["chrUn"])        # a more lenient context is derived first; the original must stay as strict as it was
             old = gcm.groupby
             gcm.groupby = lambda data, field=None: iter(data)
             try:
@@ -229,6 +232,9 @@ class GroupbyChunks(Harness):
                     for chunks in compositions(n):
                         for api in ("groupby", "iter_chromosomes"):
                             out.append(dict(n=n, contigs=contigs, chunks=chunks, api=api))
+                        if len(chunks) <= 2:
+                            # the same with a table whose contig column is declared `str` (ragged text: another change detector)
+                            out.append(dict(n=n, contigs=contigs, chunks=chunks, api="groupby", col="str"))
         return out
 
     def inputs(self, skel, V):
@@ -244,11 +250,22 @@ class GroupbyChunks(Harness):
         names = [self.CONTIGS[c] for c in skel["contigs"]]
         starts = [x[f"s{i}"] for i in range(n)]
         stops = [x[f"s{i}"] + x[f"w{i}"] for i in range(n)]
+        if skel.get("col") == "str":
+            from bionumpy.bnpdataclass import bnpdataclass
+
+            @bnpdataclass
+            class StrInterval:
+                chromosome: str
+                start: int
+                stop: int
+            Table = StrInterval
+        else:
+            Table = Interval
         chunks, k = [], 0
         for sz in skel["chunks"]:
-            chunks.append(Interval(names[k:k + sz], ctx.arr(starts[k:k + sz], "int64"), ctx.arr(stops[k:k + sz], "int64")))
+            chunks.append(Table(names[k:k + sz], ctx.arr(starts[k:k + sz], "int64"), ctx.arr(stops[k:k + sz], "int64")))
             k += sz
-        stream = NpDataclassStream(iter(chunks), dataclass=Interval)
+        stream = NpDataclassStream(iter(chunks), dataclass=Table)
         if skel["api"] == "groupby":
             groups = [(key, g) for key, g in itertools.islice(groupby(stream, "chromosome"), n + 2)]
         else:
